@@ -1,3 +1,118 @@
+// jscheck decides the static clauses of one property of google/jsonschema-go.
+//
+//	jscheck -prop C07 -tier quick|thorough [-repo /repo] [-verif /verif]
 package main
 
-func main() {}
+import (
+	"flag"
+	"fmt"
+	"os"
+	"runtime/debug"
+	"sort"
+
+	"verif/checker/core"
+	"verif/checker/rules"
+)
+
+func main() {
+	prop := flag.String("prop", "", "property id")
+	tier := flag.String("tier", "quick", "quick or thorough")
+	repo := flag.String("repo", "/repo", "repository root")
+	verif := flag.String("verif", "/verif", "verification directory (evidence, known findings)")
+	noSelf := flag.Bool("noselftest", false, "skip the checker self-test in the thorough tier")
+	list := flag.Bool("list", false, "list properties")
+	selfOnly := flag.Bool("selftest", false, "run only the checker self-test (mutant corpus) of the property and print the verdicts")
+	only := flag.String("mutant", "", "with -selftest: run only this mutant and print the checker output")
+	flag.Parse()
+	if t := os.Getenv("VERIF_TIER"); t != "" && !isFlagSet("tier") {
+		*tier = t
+	}
+	if *list {
+		var ids []string
+		for id := range rules.Properties {
+			ids = append(ids, id)
+		}
+		sort.Strings(ids)
+		for _, id := range ids {
+			fmt.Println(id)
+		}
+		return
+	}
+	p := rules.Properties[*prop]
+	if p == nil {
+		fmt.Fprintf(os.Stderr, "unknown property %q\n", *prop)
+		os.Exit(2)
+	}
+	if *selfOnly {
+		selftestMain(p.ID, *repo, *verif, *only)
+		return
+	}
+	rep := core.NewReport(p.ID, *tier)
+	type run struct {
+		cfg   core.Config
+		graph string
+	}
+	runs := []run{{core.Config{Repo: *repo}, "vta"}}
+	if *tier == "thorough" {
+		runs = append(runs,
+			run{core.Config{Repo: *repo}, "cha"},
+			run{core.Config{Repo: *repo, GOOS: "linux", GOARCH: "386"}, "vta"},
+			run{core.Config{Repo: *repo, GOOS: "windows", GOARCH: "amd64"}, "vta"},
+			run{core.Config{Repo: *repo, Tags: "verif"}, "vta"},
+		)
+	}
+	var configs []string
+	filesSeen := map[string]bool{}
+	progs := map[string]*core.Prog{}
+	for _, r := range runs {
+		label := r.cfg.String() + " graph=" + r.graph
+		if r.cfg.GOOS == "" {
+			label = "default graph=" + r.graph
+		}
+		configs = append(configs, label)
+		rep.SetConfig(label)
+		key := r.cfg.String()
+		prog := progs[key]
+		if prog == nil {
+			var err error
+			prog, err = core.Load(r.cfg)
+			if err != nil {
+				rep.Bad(p.ID+"/load", "load:"+label, "", "cannot load and type-check the repository: "+err.Error())
+				continue
+			}
+			progs[key] = prog
+		}
+		for _, f := range prog.Files {
+			filesSeen[f] = true
+		}
+		ctx := rules.NewCtx(prog, rep, r.graph, *tier)
+		for _, rule := range p.Rules {
+			func() {
+				defer func() {
+					if e := recover(); e != nil {
+						rep.Unknown(rule.ID, "checker-panic", "", fmt.Sprintf("the rule panicked: %v\n%s", e, debug.Stack()))
+					}
+				}()
+				rule.Run(ctx)
+			}()
+		}
+		rep.Info["functions_analysed"] = len(prog.Funcs)
+	}
+	// every .go file of the package directory must have been analysed in some configuration
+	rules.CheckFilesCovered(rep, p.ID, *repo, filesSeen)
+	extra := map[string]any{"build_configs": configs}
+	if *tier == "thorough" && !*noSelf {
+		extra["selftest"] = rules.SelfTest(p.ID, *repo, *verif)
+	}
+	os.Exit(rep.Finish(*verif, p.Explanation, p.NotDecided, rules.TrustedBase, extra))
+}
+
+func isFlagSet(name string) bool {
+	set := false
+	flag.Visit(func(f *flag.Flag) {
+		if f.Name == name {
+			set = true
+		}
+	})
+	return set
+}
